@@ -197,7 +197,7 @@ fn record_frags(rng: &mut Rng, t: usize, c: usize) -> Vec<String> {
             _ => match rng.below(24) {
                 // a record larger than common chunking thresholds (8 KiB), or a line break inside
                 // the record (line-buffering layers split there)
-                0 => v.push(format!("p{t}-{c}-{k}:{}", "z".repeat(*rng.pick(&[1030usize, 8200, 9000, 17000])))),
+                0 => v.push(format!("p{t}-{c}-{k}:{}", "z".repeat(*rng.pick(&[1030usize, 8200, 9000, 17000, 66_000, 70_000])))),
                 1 | 2 => v.push(format!("p{t}-{c}-{k}\nl2-{t}-{c}")),
                 _ => v.push(format!("p{t}-{c}-{k}")),
             },
